@@ -412,6 +412,21 @@ def main():
             res['summary'] = 'replayed %d call(s)' % res['calls']
             print(json.dumps(res, default=str))
             return
+        # fixed scenario first: two exports with different poloidal resolution through the DEFAULT params, then the same call with params={} spelled out
+        # (nothing may be carried from one call to the next through the mutable default argument)
+        try:
+            base_cfg = dict(rc=[1.0, 0.09], zs=[0.0, -0.09], nfp=2, etabar=0.95, nphi=15)
+            src0 = dict(cfg=base_cfg)
+            q1 = build_src(src0); do_call(q1, dict(m='to_vmec', args=[{'__tmp__': 'input.fixed1'}], kw=dict(r=0.05, ntheta=6)))
+            q2 = build_src(src0); do_call(q2, dict(m='to_vmec', args=[{'__tmp__': 'input.fixed2'}], kw=dict(r=0.05, ntheta=10)))
+            q3 = build_src(src0); do_call(q3, dict(m='to_vmec', args=[{'__tmp__': 'input.fixed3'}], kw=dict(r=0.05, ntheta=10, params={})))
+            res['independence_checked'] += 1
+            if 'RBC' in q2.__dict__ and 'RBC' in q3.__dict__ and canon(q2.RBC) != canon(q3.RBC):
+                res['violations'].append(dict(key='to_vmec:default-params', what='to_vmec(ntheta=10) after an earlier to_vmec(ntheta=6) differs from the same call with params={} '
+                                              '(RBC shape %s vs %s): state is kept in the mutable default argument' % (np.shape(q2.RBC), np.shape(q3.RBC)),
+                                              sequence=[dict(m='to_vmec', kw=dict(r=0.05, ntheta=6)), dict(m='to_vmec', kw=dict(r=0.05, ntheta=10))], independence=True, **src0))
+        except Exception:
+            pass
         thorough = a.tier == 'thorough'
         n_obj = a.n if a.mode == 'check' else 10 ** 9
         budget = a.budget if a.mode == 'search' else (55 if not thorough else max(a.budget, 600))
